@@ -62,6 +62,14 @@ CLAIMED["C20"] = ("Theorems C20_* (coq/Properties/C20.v): an operation's own che
                   "column, an existing tag, a bad slice, mismatched chain operands, an unsupported expression or a join predicate "
                   "with a missing column is rejected with the documented class for every option combination; single ill-typing "
                   "edits of random multi-engine programs are replayed on the real library per run.", "DESIGN.md §4 C20")
+CLAIMED["C07"] = ("Theorems C07_process_faithful and C07_repeated_process_faithful (coq/Properties/C07.v): for every well-formed multi-engine "
+                  "tree over truthful leaves and any state left by earlier process() calls, the model of Processor._process_recursive returns "
+                  "the rows of direct evaluation, stores payloads for materializations of the input only (each the content of its node), keeps "
+                  "earlier payloads, and invokes hooks only with the content of their node and never for statically empty or join-identity "
+                  "nodes. A real Processor subclass (SQLite temp tables <-> RowSequence) processes every generated tree twice per run; hook "
+                  "log, payloads on the input tree, object identity of its nodes and executed rows are compared with the model and the "
+                  "specification. The shape of the rebuilt tree is checked on the implementation only (hook sources hold no payload-less "
+                  "transfer).", "DESIGN.md §4 C07")
 CLAIMED["C16"] = ("Theorem C16_diagnostics_correct (coq/Properties/C16.v): for every well-formed tree over truthful leaves the model of "
                   "Diagnostics.run dooms only empty relations, every doomed verdict has a message, and with a truthful executor "
                   "the verdict is exact (doomed iff no rows). The model of run() is compared with the real Diagnostics (verdict and "
